@@ -164,7 +164,9 @@ class Scenario:
         elif kind == "update_hosts":
             self.wakeups.append(now)
             new_hosts = list(arg)
-            self.host_changes.append((now, new_hosts))
+            if set(new_hosts) != set(self.current_hosts()):
+                # only a CHANGED advertised set obliges the next attempt to reconsider every address
+                self.host_changes.append((now, new_hosts))
             self._advertised = new_hosts
             w.pairing._async_description_update(w.description(new_hosts))
         elif kind == "update_port":
